@@ -961,6 +961,21 @@ func AddrUses(v ssa.Value) []ssa.Instruction {
 				} else {
 					out = append(out, ref)
 				}
+			case *ssa.Call:
+				// the address handed to a function with a body: what that function does with its parameter
+				if g := y.Call.StaticCallee(); g != nil && !y.Call.IsInvoke() && g.Blocks != nil && d < 3 {
+					followed := false
+					for i, a := range y.Call.Args {
+						if a == x && i < len(g.Params) {
+							walk(g.Params[i], d+1)
+							followed = true
+						}
+					}
+					if followed {
+						continue
+					}
+				}
+				out = append(out, ref)
 			default:
 				out = append(out, ref)
 			}
